@@ -87,6 +87,8 @@ def gen_case(rng: random.Random, tier: str) -> dict:
         spec = {"form": "tuple", "parts": parts + [part(2)]}
     else:
         spec = {"form": "keywords", "kw": {"stage1": f"{lhs} ~ {parts[0]}", "stage2": {"a": part(2), "b": parts[-1]}}}
+    if rng.random() < 0.12:  # a structured specification that holds nothing but a root entry (with or without a nested level)
+        spec = {"form": "root_only", "root": rng.choice([parts[0], f"{lhs} ~ {parts[0]}", [parts[0], part(2)]])}
     return {"mix": rng.choice([None, "last", "first", "all_but_first", "all"]), "efr": rng.random() < 0.7, "cols": cols, "spec": spec, "output": rng.choice(["pandas", "numpy", "sparse"]), "pnull": pnull,
             "enc": sorted(enc.values())}
 
@@ -105,6 +107,8 @@ def build_formula(spec):
         return Formula(spec["s"])
     if spec["form"] == "tuple":
         return Formula(tuple(spec["parts"]))
+    if spec["form"] == "root_only":
+        return Formula({"root": conv(spec["root"])})
     kw = {k: conv(v) for k, v in spec["kw"].items()}
     return Formula(**kw)
 
